@@ -124,6 +124,7 @@ def isDec : PyVal → Bool
 def pyLt (a b : PyVal) : Except Exn Bool :=
   match a.unsub, b.unsub with
   | .date x, .date y => .ok (decide (x < y))
+  | .uuid x, .uuid y => .ok (decide (x < y))
   | .datetime x none, .datetime y none => .ok (decide (x < y))
   | .datetime x (some p), .datetime y (some q) => .ok (decide (dtInstant x p < dtInstant y q))
   | .datetime _ _, .datetime _ _ => .error .typeError
